@@ -255,9 +255,10 @@ fn gen_msg(g: &mut G, k: &Knobs, actor: usize, n_actors: usize, depth: u32, join
 fn gen_hook_steps(g: &mut G, k: &Knobs, n: u64) -> Vec<Op> {
     let mut v = Vec::new();
     for _ in 0..n {
-        match g.below(3) {
-            0 => v.push(Op::Yield(g.range(1, 2) as u32)),
-            1 => v.push(Op::Sleep(g.pick(&k.sleeps))),
+        match g.below(8) {
+            0 | 1 => v.push(Op::Yield(g.range(1, 2) as u32)),
+            2 | 3 | 4 => v.push(Op::Sleep(g.pick(&k.sleeps))),
+            5 => v.push(Op::ConsumeBudget(g.range(1, 6) as u32)),
             _ => v.push(Op::Yield(1)),
         }
     }
@@ -332,6 +333,9 @@ fn gen_client_op(g: &mut G, k: &Knobs, c: usize, n_actors: usize, own: &mut Vec<
     match g.weighted(&w) {
         0 => Op::Tell { h, m: gen_msg(g, k, a, n_actors, 0, false) },
         1 => Op::Ask { h, m: gen_msg(g, k, a, n_actors, 0, false) },
+        // a share of the timeouts is sub-millisecond (tokio's timer wheel has 1 ms resolution)
+        2 if g.chance(150) => Op::TellUs { h, m: gen_msg(g, k, a, n_actors, 0, false), us: g.pick(&[1u64, 100, 250, 500, 900, 999, 1500]) },
+        3 if g.chance(150) => Op::AskUs { h, m: gen_msg(g, k, a, n_actors, 0, false), us: g.pick(&[1u64, 100, 250, 500, 900, 999, 1500]) },
         2 => Op::TellT { h, m: gen_msg(g, k, a, n_actors, 0, false), ms: g.pick(&k.timeouts) },
         3 => Op::AskT { h, m: gen_msg(g, k, a, n_actors, 0, false), ms: g.pick(&k.timeouts) },
         4 => Op::AskJoin { h: a as u32, m: gen_msg(g, k, a, n_actors, 0, true) },
